@@ -293,7 +293,7 @@ func c16Fold(c *run.C) {
 		v = (&gen.ValueGen{R: r, O: gen.GoValueOpts{IfaceTypes: []reflect.Type{reflect.TypeOf(regA{}), reflect.TypeOf(0)}}}).Value(t, 0)
 		opts = []gotype.FoldOption{gotype.Folders(foldRegA, foldRegB)}
 	default:
-		t, v = genTypeValue(r, gen.GoTypeOpts{MaxDepth: 3, Extra: zoo.Supported}, gen.GoValueOpts{BadUTF8: true, SpecialF: true, MaxLen: 3})
+		t, v = genTypeValue(r, gen.GoTypeOpts{MaxDepth: 3, Arrays: true, Extra: zoo.Supported}, gen.GoValueOpts{BadUTF8: true, SpecialF: true, MaxLen: 3})
 	}
 	basic := r.Bool()
 	c.Begin(goCase{Type: t.String(), Value: valueString(v), How: fmt.Sprintf("failing-visitor basic=%v", basic)})
